@@ -2,7 +2,7 @@
 from worldcheck import *
 
 PROP = "C03"
-THEOREMS = []
+THEOREMS = [tuple(x) for x in json.load(open(os.path.join(VERIF, "lib", "pins", PROP + ".json")))]
 
 
 def gen(rng, **kw):
